@@ -12,7 +12,7 @@ meta = {
  "checks_run": {k: ("violation reported" if v == "1" else "passed (not detected by this property's check)") for k, v in rcs},
  "replay": replay,
  "ran": ["tools/confirm_seed.sh (scratch worktree: patch applies, go build, full suite passes with the demo skipped, demo fails with / passes without the patch) — see confirm.log",
-         "tools/run_seed.sh seeded/%s %s (git apply on /repo, govc check, git checkout) — see check.log" % (name, ' '.join(k for k, _ in rcs))],
+         "tools/run_seed.sh seeded/%s %s (patch applied to a scratch worktree of /repo HEAD, govc check with VERIF_REPO pointing at it, worktree removed) — see check.log" % (name, ' '.join(k for k, _ in rcs))],
  "origin": "independent sub-agent given only the property text and a scratch worktree (contract files removed)",
 }
 json.dump(meta, open(d + '/meta.json', 'w'), indent=1)
